@@ -2957,7 +2957,8 @@ impl LineBuf {
 					pos -= 1;
 				}
 				// an operator ('d$', 'A') works up to the terminator, so that the last character is included
-				let appending = verb.is_some();
+				// (and in visual mode '$' takes the terminator into the selection, except the buffer's last one)
+				let appending = verb.is_some() || (self.is_selecting() && pos + 1 < self.cursor.max);
 				if !appending && self.grapheme_at(pos) == Some("\n") && pos > 0 && self.grapheme_at(pos - 1) != Some("\n") {
 					// If we are at the end of the line, we want to go back one
 					// So we don't land on the newline
